@@ -1,13 +1,25 @@
-(** C08, max-min side, continued: a constant guarantee for the smallest sum produced by greedy (LPT)
-    that does not degrade with the number of bins.  [Proofs/LPTMinProofs.v] proves
-    k * OPTmin <= (2k-1) * LPTmin; here a weighting argument with a run-dependent parameter gives
-    2 * OPTmin <= 3 * LPTmin for every k. *)
+(** C08, max-min side, continued: the classical guarantee for the smallest sum produced by greedy (LPT),
+        3 * OPTmin <= 4 * LPTmin     for every number of bins
+    (Deuermeyer, Friesen, Langston 1982).  [Proofs/LPTMinProofs.v] has k * OPTmin <= (2k-1) * LPTmin.
+
+    Method: weighting arguments whose weights depend on the run.  Let T be the value of the
+    assignment greedy is compared with, L the smallest load of greedy, and assume 4 L < 3 T.
+    A step is "overfull" when an item lands on a bin at least as large as itself and lifts it above T.
+    - No overfull step: values capped at T ([k1_run]); every bin weighs at most T, the smallest at most L.
+    - Otherwise let the last overfull step put a on a bin of load x.  If every earlier step onto a
+      non-empty bin closes that bin (load above L), the two-level staircase [W] with parameter x is
+      used ([k2_run]): all bins weigh at most 2 (T - x), the smallest one less.
+    - Otherwise let p be the load of the bin that received the last such non-closing item.  The
+      three-level staircase [W3] with u = max (x/2) p is used ([k3_run]): all bins weigh at most
+      3 (T - 2u) (in doubled units 6 (T - u2)), the smallest one less.
+    On the other side every set of values reaching T weighs at least the same bound
+    ([VP_total], [VP3_total]; the staircases are subadditive). *)
 From Prtpy Require Import Base.Prelude Model.Binner Model.Greedy Model.Objectives Spec.Partition
   Oracle.Reach Proofs.BaseLemmas Proofs.BinnerLemmas Proofs.GreedyProofs Proofs.RatioProofs Proofs.OracleSpec
   Proofs.LPTMinProofs.
 From Coq Require Import Sorting.Sorted Arith ZifyBool.
 
-(** ================= A. the weights ================= *)
+(** ================= A. the two-level staircase ================= *)
 
 (** Target T, parameter x with T/2 <= x <= T, h = T - x.  A value below h counts itself, a value
     in [h, x] counts h, a value above x counts h + (a - x), at most 2 h.  Every set of values
@@ -46,10 +58,72 @@ Proof.
   - apply IH. inversion HT; assumption.
 Qed.
 
-(** ================= B. generic facts about the greedy loop ================= *)
+(** ================= B. the three-level staircase (doubled units) ================= *)
+
+(** three-level staircase in doubled units, h the step height, dd twice the shift of the ramps *)
+Definition S3 (h dd v : Z) : Z :=
+  Z.min (2 * v) (Z.min (Z.max (2 * h) (2 * v - dd)) (Z.min (Z.max (4 * h) (2 * v - 2 * dd)) (6 * h))).
+
+Lemma S3_cases h dd v :
+  S3 h dd v = 2 * v \/ S3 h dd v = Z.max (2 * h) (2 * v - dd) \/
+  S3 h dd v = Z.max (4 * h) (2 * v - 2 * dd) \/ S3 h dd v = 6 * h.
+Proof. unfold S3. lia. Qed.
+
+Lemma S3_caps h dd v :
+  S3 h dd v <= 2 * v /\ S3 h dd v <= Z.max (2 * h) (2 * v - dd) /\
+  S3 h dd v <= Z.max (4 * h) (2 * v - 2 * dd) /\ S3 h dd v <= 6 * h.
+Proof. unfold S3. lia. Qed.
+
+(** the staircase is subadditive *)
+Lemma S3_sub h dd p q : 0 <= h -> 0 <= dd -> 0 <= p -> 0 <= q ->
+  S3 h dd (p + q) <= S3 h dd p + S3 h dd q.
+Proof.
+  intros Hh Hd Hp Hq.
+  destruct (S3_caps h dd (p + q)) as (C1 & C2 & C3 & C4).
+  generalize dependent (S3 h dd (p + q)). intros z C1 C2 C3 C4.
+  destruct (S3_cases h dd p) as [E|[E|[E|E]]]; rewrite E; clear E;
+  destruct (S3_cases h dd q) as [E|[E|[E|E]]]; rewrite E; clear E; lia.
+Qed.
+
+Definition W3 (T u2 v : Z) : Z := S3 (T - u2) (3 * u2 - 2 * T) v.
+
+Lemma W3_bounds T u2 v : 2 * T <= 3 * u2 -> u2 <= T -> 0 <= v ->
+  0 <= W3 T u2 v <= 2 * v /\ W3 T u2 v <= 6 * (T - u2) /\
+  (2 * v <= u2 -> W3 T u2 v <= 2 * (T - u2)) /\
+  (v <= u2 -> W3 T u2 v <= 4 * (T - u2)) /\
+  (u2 <= v -> W3 T u2 v <= 2 * v - 2 * (3 * u2 - 2 * T)).
+Proof. intros H1 H2 Hv. unfold W3, S3. lia. Qed.
+
+Lemma W3_top T u2 v : 2 * T <= 3 * u2 -> u2 <= T -> T <= v -> W3 T u2 v = 6 * (T - u2).
+Proof. intros H1 H2 Hv. unfold W3, S3. lia. Qed.
+
+Definition VP3 (T u2 l wl : Z) : Prop := 0 <= l /\ W3 T u2 l <= wl.
+
+Lemma VP3_total T u2 k vs s : 2 * T <= 3 * u2 -> u2 <= T -> Forall (fun v => 0 <= v) vs ->
+  Attainable k vs s -> Forall (fun a => T <= a) s ->
+  Z.of_nat k * (6 * (T - u2)) <= zsum (map (W3 T u2) vs).
+Proof.
+  intros H1 H2 Hpos Hs HT.
+  destruct (weights_along (VP3 T u2) (W3 T u2) k vs s) as (t & Ht & Hlen & Hsum).
+  - unfold VP3, W3, S3. lia.
+  - eapply Forall_impl; [|exact Hpos]. intros a Ha l wl [Hl Hw]. cbv beta in Ha. split; [lia|].
+    pose proof (S3_sub (T - u2) (3 * u2 - 2 * T) l a ltac:(lia) ltac:(lia) Hl Ha) as Hsub.
+    unfold W3 in *. lia.
+  - exact Hs.
+  - rewrite <- Hsum, <- Hlen. apply zsum_ge_bound.
+    clear Hlen Hsum Hs. induction Ht as [|a b s t Hab Hst IH]; constructor.
+    + pose proof (Forall_inv HT) as Ha. cbv beta in Ha. destruct Hab as [Hl Hw].
+      rewrite (W3_top T u2 a H1 H2 Ha) in Hw. exact Hw.
+    + apply IH. exact (Forall_inv_tail HT).
+Qed.
+
+(** ================= C. generic facts about the greedy loop ================= *)
 
 Lemma vgreedy_cons a l g : vgreedy (a :: l) g = vgreedy l (vstep g a).
 Proof. reflexivity. Qed.
+
+Lemma vgreedy_app l1 l2 g : vgreedy (l1 ++ l2) g = vgreedy l2 (vgreedy l1 g).
+Proof. unfold vgreedy. apply fold_left_app. Qed.
 
 Lemma vgreedy_zmin_ge l : forall g, (1 <= length g)%nat -> Forall (fun v => 0 <= v) l ->
   zmin g <= zmin (vgreedy l g).
@@ -58,6 +132,13 @@ Proof.
   inversion Hpos as [|a' l' Ha Hl]; subst. rewrite vgreedy_cons.
   pose proof (vstep_zmin_ge g a Hg Ha) as H1.
   specialize (IH (vstep g a) ltac:(rewrite vstep_length; exact Hg) Hl). lia.
+Qed.
+
+Lemma init_zmin_nonneg k l : (1 <= k)%nat -> Forall (fun v => 0 <= v) l -> 0 <= zmin (vgreedy l (repeat 0 k)).
+Proof.
+  intros Hk Hpos.
+  pose proof (vgreedy_zmin_ge l (repeat 0 k) ltac:(rewrite repeat_length; exact Hk) Hpos) as H.
+  rewrite zmin_repeat0 in H. exact H.
 Qed.
 
 (** one step of the loop on loads paired with weights: the touched bin is the smallest one *)
@@ -76,36 +157,19 @@ Proof.
   - rewrite zsum_update; [lia|]. rewrite <- (Forall2_length_eq _ _ _ H). exact Hi.
 Qed.
 
-(** a step is overfull when the item lands on a bin at least as large as itself and lifts it above T *)
-Definition over (T : Z) (g : list Z) (a : Z) : Prop := a <= zmin g /\ T < zmin g + a.
-
-Fixpoint nover (T : Z) (l : list Z) (g : list Z) : Prop :=
-  match l with
-  | [] => True
-  | a :: l' => ~ over T g a /\ nover T l' (vstep g a)
-  end.
-
-Lemma over_dec T g a : over T g a \/ ~ over T g a.
-Proof. unfold over. lia. Qed.
-
-(** either no step is overfull or there is a last one *)
-Lemma last_over T l : forall g, nover T l g \/
-  exists l1 a l2, l = l1 ++ a :: l2 /\ over T (vgreedy l1 g) a /\ nover T l2 (vstep (vgreedy l1 g) a).
-Proof.
-  induction l as [|a l IH]; intros g; [left; exact I|].
-  destruct (IH (vstep g a)) as [Hn|(l1 & b & l2 & El & Ho & Hn)].
-  - destruct (over_dec T g a) as [Ho|Ho].
-    + right. exists [], a, l. split; [reflexivity|]. split; [exact Ho|exact Hn].
-    + left. split; assumption.
-  - right. exists (a :: l1), b, l2. subst l. split; [reflexivity|]. split; assumption.
-Qed.
-
 Lemma Forall2_impl_l {U V} (R : U -> Prop) (P Q : U -> V -> Prop) :
   (forall a b, R a -> P a b -> Q a b) -> forall s t, Forall R s -> Forall2 P s t -> Forall2 Q s t.
 Proof.
   intros H s t HR H2. induction H2 as [|a b s t Hab Hst IH]; constructor.
   - apply H; [exact (Forall_inv HR)|exact Hab].
   - apply IH. exact (Forall_inv_tail HR).
+Qed.
+
+Lemma Forall2_ge_min C s t : Forall (fun a => C <= a) s -> Forall2 (SP C) s t -> Forall (fun b => C <= b) t.
+Proof.
+  intros Hs H. induction H as [|a b s t Hab Hst IH]; constructor.
+  - pose proof (Forall_inv Hs) as Ha. cbv beta in Ha. unfold SP in Hab. lia.
+  - apply IH. exact (Forall_inv_tail Hs).
 Qed.
 
 Lemma sorted_desc_app_inv l1 a l2 : StronglySorted (fun a b : Z => b <= a) (l1 ++ a :: l2) ->
@@ -120,7 +184,145 @@ Proof.
       exact (Forall_inv Hy).
 Qed.
 
-(** ================= C. the two phases of a run with an overfull step ================= *)
+(** no step of the run of l from g satisfies R / every step satisfies S *)
+Fixpoint nstep (R : list Z -> Z -> Prop) (l : list Z) (g : list Z) : Prop :=
+  match l with [] => True | a :: l' => ~ R g a /\ nstep R l' (vstep g a) end.
+
+Fixpoint allstep (S : list Z -> Z -> Prop) (l : list Z) (g : list Z) : Prop :=
+  match l with [] => True | a :: l' => S g a /\ allstep S l' (vstep g a) end.
+
+Lemma last_step (R : list Z -> Z -> Prop) : (forall g a, R g a \/ ~ R g a) -> forall l g,
+  nstep R l g \/
+  exists l1 a l2, l = l1 ++ a :: l2 /\ R (vgreedy l1 g) a /\ nstep R l2 (vstep (vgreedy l1 g) a).
+Proof.
+  intros dec l. induction l as [|a l IH]; intros g; [left; exact I|].
+  destruct (IH (vstep g a)) as [Hn|(l1 & b & l2 & El & Ho & Hn)].
+  - destruct (dec g a) as [Ho|Ho].
+    + right. exists [], a, l. split; [reflexivity|]. split; [exact Ho|exact Hn].
+    + left. split; assumption.
+  - right. exists (a :: l1), b, l2. subst l. split; [reflexivity|]. split; assumption.
+Qed.
+
+(** the usual shape of a side condition: bounds on the smallest load, a property of the item,
+    and the step is not of kind R *)
+Definition side (lo m : Z) (E : Z -> Prop) (R : list Z -> Z -> Prop) (g : list Z) (c : Z) : Prop :=
+  lo <= zmin g <= m /\ E c /\ ~ R g c.
+
+Lemma allstep_intro lo m (E : Z -> Prop) R : forall l g, (1 <= length g)%nat ->
+  Forall (fun c => 0 <= c /\ E c) l -> nstep R l g -> zmin (vgreedy l g) <= m -> lo <= zmin g ->
+  allstep (side lo m E R) l g.
+Proof.
+  induction l as [|a l IH]; intros g Hg Hl Hn Hm Hlo; [exact I|].
+  pose proof (Forall_inv Hl) as [Ha HE]. pose proof (Forall_inv_tail Hl) as Hl'.
+  destruct Hn as [Hna Hn]. rewrite vgreedy_cons in Hm.
+  assert (Hg' : (1 <= length (vstep g a))%nat) by (rewrite vstep_length; exact Hg).
+  pose proof (vstep_zmin_ge g a Hg Ha) as Hm1.
+  assert (Hpos : Forall (fun v => 0 <= v) l).
+  { eapply Forall_impl; [|exact Hl']. intros b Hb. cbv beta in Hb. tauto. }
+  pose proof (vgreedy_zmin_ge l (vstep g a) Hg' Hpos) as Hm2.
+  split.
+  - unfold side. repeat split; try assumption; lia.
+  - apply IH; try assumption. lia.
+Qed.
+
+(** a per-bin invariant [Inv y] (y bounds the later items from above) along a run *)
+Lemma run_inv (Inv : Z -> Z -> Z -> Prop) (w : Z -> Z) (S : list Z -> Z -> Prop) :
+  (forall y c l wl, c <= y -> Inv y l wl -> Inv c l wl) ->
+  (forall g c y wl, S g c -> c <= y -> Inv y (zmin g) wl -> Inv c (zmin g + c) (wl + w c)) ->
+  forall l g t y, (1 <= length g)%nat -> StronglySorted (fun a b : Z => b <= a) l ->
+  Forall (fun c => c <= y) l -> allstep S l g -> Forall2 (Inv y) g t ->
+  exists t' y', Forall2 (Inv y') (vgreedy l g) t' /\ zsum t' = zsum t + zsum (map w l) /\
+                Forall (fun c => y' <= c) l /\ y' <= y.
+Proof.
+  intros Hweak Hstep l. induction l as [|a l IH]; intros g t y Hg Hsort Hy Hall Ht.
+  - exists t, y. split; [exact Ht|]. split; [cbn; lia|]. split; [constructor|lia].
+  - apply StronglySorted_inv in Hsort. destruct Hsort as [Hsl Hal].
+    pose proof (Forall_inv Hy) as Hay. cbv beta in Hay. destruct Hall as [HS Hall].
+    assert (Hg' : (1 <= length (vstep g a))%nat) by (rewrite vstep_length; exact Hg).
+    destruct (step_F2 (Inv y) (Inv a) g t a (w a) Hg Ht) as [HF Hs].
+    + intros l0 wl Hq. apply (Hweak y); assumption.
+    + intros wl Hq. apply (Hstep g a y); assumption.
+    + destruct (IH _ _ a Hg' Hsl Hal Hall HF) as (t' & y' & Ht' & Hsum & Hy' & Hle).
+      exists t', y'. rewrite vgreedy_cons. split; [exact Ht'|]. split; [|split].
+      * rewrite Hsum, Hs. cbn [map]. change (zsum (?b :: ?r)) with (b + zsum r). lia.
+      * constructor; [lia|exact Hy'].
+      * lia.
+Qed.
+
+(** the empty kind of step *)
+Definition RF (g : list Z) (c : Z) : Prop := False.
+
+Lemma nstep_RF l : forall g, nstep RF l g.
+Proof. induction l as [|a l IH]; intros g; cbn; [exact I|]. split; [intros H; exact H|apply IH]. Qed.
+
+Lemma allstep_app S l1 : forall l2 g, allstep S l1 g -> allstep S l2 (vgreedy l1 g) -> allstep S (l1 ++ l2) g.
+Proof.
+  induction l1 as [|a l1 IH]; intros l2 g H1 H2; [exact H2|].
+  destruct H1 as [Ha H1]. cbn [app allstep]. split; [exact Ha|]. apply IH; assumption.
+Qed.
+
+Lemma allstep_impl (S S' : list Z -> Z -> Prop) : (forall g c, S g c -> S' g c) ->
+  forall l g, allstep S l g -> allstep S' l g.
+Proof.
+  intros H l. induction l as [|a l IH]; intros g Hl; [exact I|].
+  destruct Hl as [Ha Hl]. split; [apply H; exact Ha|apply IH; exact Hl].
+Qed.
+
+(** a step is overfull when the item lands on a bin at least as large as itself and lifts it above T *)
+Definition over (T : Z) (g : list Z) (a : Z) : Prop := a <= zmin g /\ T < zmin g + a.
+
+Lemma over_dec T g a : over T g a \/ ~ over T g a.
+Proof. unfold over. lia. Qed.
+
+(** a step is open when the item lands on a bin at least as large as itself and the bin can still
+    receive items afterwards (load at most L) *)
+Definition opn (L : Z) (g : list Z) (c : Z) : Prop := c <= zmin g /\ zmin g + c <= L.
+
+Lemma opn_dec L g c : opn L g c \/ ~ opn L g c.
+Proof. unfold opn. lia. Qed.
+
+(** side condition after the last overfull step *)
+Definition SC (T L a : Z) (g : list Z) (c : Z) : Prop :=
+  zmin g <= L /\ 0 <= c <= a /\ zmin g + c <= T.
+
+(** ================= D. no overfull step ================= *)
+
+(** values capped at T: a bin weighs at most T and at most its load *)
+Definition P0 (T y l wl : Z) : Prop := 0 <= wl /\ wl <= T /\ wl <= l /\ (l = 0 \/ y <= l).
+
+Definition S0 (T : Z) (g : list Z) (c : Z) : Prop := 0 <= c /\ ~ over T g c.
+
+Lemma k1_run T k l : (1 <= k)%nat -> 0 <= T ->
+  StronglySorted (fun a b : Z => b <= a) l -> Forall (fun v => 0 <= v) l ->
+  nstep (over T) l (repeat 0 k) ->
+  exists t, Forall2 (fun l wl => wl <= T /\ wl <= l) (vgreedy l (repeat 0 k)) t /\
+            zsum t = zsum (map (cap T) l).
+Proof.
+  intros Hk HT Hsort Hpos Hn.
+  assert (Hall : allstep (S0 T) l (repeat 0 k)).
+  { eapply allstep_impl; [|apply (allstep_intro 0 (zmin (vgreedy l (repeat 0 k))) (fun c => 0 <= c) (over T)); try assumption].
+    - intros g c (H1 & H2 & H3). unfold S0. tauto.
+    - rewrite repeat_length. exact Hk.
+    - eapply Forall_impl; [|exact Hpos]. intros c Hc. cbv beta in Hc |- *. lia.
+    - lia.
+    - rewrite zmin_repeat0. lia. }
+  destruct (run_inv (P0 T) (cap T) (S0 T)) with (l := l) (g := repeat 0 k)
+    (t := repeat 0 k) (y := zsum l) as (t1 & y1 & Ht1 & Hsum1 & _ & _).
+  - intros y c l0 wl Hc Hq. unfold P0 in *. lia.
+  - intros g c y wl (H1 & H2) Hcy Hq. unfold over in H2. unfold P0, cap in *. lia.
+  - rewrite repeat_length. exact Hk.
+  - exact Hsort.
+  - apply Forall_forall. intros c Hc. apply in_le_zsum; assumption.
+  - exact Hall.
+  - apply Forall2_repeat. unfold P0. lia.
+  - exists t1. rewrite zsum_repeat0 in Hsum1. split; [|lia].
+    eapply Forall2_impl; [|exact Ht1]. intros c d Hcd. unfold P0 in Hcd. cbv beta. lia.
+Qed.
+
+(** ================= E. every pairing before the last overfull step closes its bin ================= *)
+
+(** x is the load hit by the last overfull step, L the final smallest load *)
+Definition par2 (T x L : Z) : Prop := x <= L /\ T < 2 * x /\ L < T /\ 0 <= L.
 
 (** before the last overfull step: every item exceeds h = T - x, so a bin is empty, holds one
     item, or holds two items and is closed (load above L) *)
@@ -133,263 +335,431 @@ Definition P1 (T x L y l wl : Z) : Prop :=
 Definition P2 (T x L l wl : Z) : Prop :=
   wl <= 2 * (T - x) /\ (L < l \/ wl <= l + (T - x) - x).
 
-(** the standing assumptions: x is a smallest load during the run, L the final one, and
-    L < 2/3 T *)
-Definition params (T x L : Z) : Prop := x <= L /\ T < 2 * x /\ 3 * L < 2 * T /\ 0 <= L.
+Lemma P1c_step T x L y mu a wl : par2 T x L -> 0 <= mu <= x -> T - x < a <= y ->
+  ~ (a <= mu /\ mu + a <= L) -> P1 T x L y mu wl -> P1 T x L a (mu + a) (wl + W T x a).
+Proof.
+  intros Hp Hmu Ha Hno (H1 & H2 & H3). unfold par2 in Hp. unfold P1, W. destruct (a <=? x) eqn:E; lia.
+Qed.
 
-Lemma P1_step T x L y mu a wl : params T x L -> mu <= x -> T - x < a <= y ->
-  P1 T x L y mu wl -> P1 T x L a (mu + a) (wl + W T x a).
-Proof. intros Hp Hmu Ha (H1 & H2 & H3). unfold params in Hp. unfold P1, W. destruct (a <=? x) eqn:E; lia. Qed.
+Lemma P1c_weak T x L y c l wl : c <= y -> P1 T x L y l wl -> P1 T x L c l wl.
+Proof. unfold P1. lia. Qed.
 
-Lemma P1_P2 T x L y l wl : params T x L -> x <= l -> P1 T x L y l wl -> P2 T x L l wl.
-Proof. intros Hp Hl (H1 & H2 & H3). unfold params in Hp. unfold P2. lia. Qed.
+Lemma P1c_P2 T x L y l wl : par2 T x L -> x <= l -> P1 T x L y l wl -> P2 T x L l wl.
+Proof. intros Hp Hl (H1 & H2 & H3). unfold par2 in Hp. unfold P2. lia. Qed.
 
-Lemma P2_step T x L mu a wl : params T x L -> mu <= L -> 0 <= a -> mu + a <= T ->
+Lemma P2c_step T x L mu a wl : par2 T x L -> mu <= L -> 0 <= a -> mu + a <= T ->
   P2 T x L mu wl -> P2 T x L (mu + a) (wl + W T x a).
 Proof.
-  intros Hp Hmu Ha Hle (H1 & H2). unfold params in Hp.
+  intros Hp Hmu Ha Hle (H1 & H2). unfold par2 in Hp.
   pose proof (W_le T x a ltac:(lia) ltac:(lia) Ha) as Hw. unfold P2. lia.
 Qed.
 
-Lemma P2_step_over T x L a wl : params T x L -> 0 <= a <= x -> T < x + a ->
+Lemma P2c_step_over T x L a wl : par2 T x L -> 0 <= a <= x -> T < x + a ->
   P2 T x L x wl -> P2 T x L (x + a) (wl + W T x a).
-Proof. intros Hp Ha Hov (H1 & H2). unfold params in Hp. unfold P2, W. destruct (a <=? x) eqn:E; lia. Qed.
+Proof. intros Hp Ha Hov (H1 & H2). unfold par2 in Hp. unfold P2, W. destruct (a <=? x) eqn:E; lia. Qed.
 
-Lemma phase1_run T x L : params T x L ->
-  forall l g t y, (1 <= length g)%nat ->
-  StronglySorted (fun a b : Z => b <= a) l -> Forall (fun a => a <= y) l ->
-  Forall (fun a => T - x < a) l -> Forall2 (P1 T x L y) g t -> zmin (vgreedy l g) = x ->
-  exists t', Forall2 (P2 T x L) (vgreedy l g) t' /\ zsum t' = zsum t + zsum (map (W T x) l).
-Proof.
-  intros Hp l. pose proof Hp as (HxL & HT2x & HLT & HL0). induction l as [|a l IH]; intros g t y Hg Hsort Hy Hh Ht Hmin.
-  - exists t. split; [|cbn; lia]. cbn in *.
-    apply (Forall2_impl_l (fun a => x <= a) (P1 T x L y)); [| |exact Ht].
-    + intros a b Ha Hab. eapply P1_P2; eassumption.
-    + rewrite <- Hmin. apply zmin_le.
-  - apply StronglySorted_inv in Hsort. destruct Hsort as [Hsl Hal].
-    pose proof (Forall_inv Hy) as Hay. pose proof (Forall_inv_tail Hy) as Hyl.
-    pose proof (Forall_inv Hh) as Hha. pose proof (Forall_inv_tail Hh) as Hhl.
-    cbv beta in Hay, Hha. rewrite vgreedy_cons in *.
-    assert (Hpos : Forall (fun v => 0 <= v) l).
-    { eapply Forall_impl; [|exact Hhl]. intros b Hb. cbv beta in Hb. lia. }
-    assert (Hg' : (1 <= length (vstep g a))%nat) by (rewrite vstep_length; exact Hg).
-    pose proof (vstep_zmin_ge g a Hg ltac:(lia)) as Hm1.
-    pose proof (vgreedy_zmin_ge l (vstep g a) Hg' Hpos) as Hm2.
-    destruct (step_F2 (P1 T x L y) (P1 T x L a) g t a (W T x a) Hg Ht) as [HF Hs].
-    + intros l0 wl (H1 & H2 & H3). unfold P1. lia.
-    + intros wl Hp0. apply (P1_step T x L y); [exact Hp|lia|lia|exact Hp0].
-    + destruct (IH _ _ a Hg' Hsl Hal Hhl HF Hmin) as (t' & Ht' & Hsum).
-      exists t'. split; [exact Ht'|]. rewrite Hsum, Hs. cbn [map]. change (zsum (?b :: ?r)) with (b + zsum r). lia.
-Qed.
+(** side condition before the last overfull step *)
+Definition S1 (T L x : Z) (g : list Z) (c : Z) : Prop := 0 <= zmin g <= x /\ T - x < c /\ ~ opn L g c.
 
-Lemma phase2_run T x L : params T x L ->
-  forall l g t, (1 <= length g)%nat -> Forall (fun a => 0 <= a <= x) l -> x <= zmin g ->
-  nover T l g -> zmin (vgreedy l g) <= L -> Forall2 (P2 T x L) g t ->
-  exists t', Forall2 (P2 T x L) (vgreedy l g) t' /\ zsum t' = zsum t + zsum (map (W T x) l).
-Proof.
-  intros Hp l. pose proof Hp as (HxL & HT2x & HLT & HL0). induction l as [|a l IH]; intros g t Hg Hl Hx Hn Hmin Ht.
-  - exists t. split; [exact Ht|cbn; lia].
-  - pose proof (Forall_inv Hl) as Ha. pose proof (Forall_inv_tail Hl) as Hl'. cbv beta in Ha.
-    destruct Hn as [Hno Hn]. rewrite vgreedy_cons in *.
-    assert (Hpos : Forall (fun v => 0 <= v) l).
-    { eapply Forall_impl; [|exact Hl']. intros b Hb. cbv beta in Hb. lia. }
-    assert (Hg' : (1 <= length (vstep g a))%nat) by (rewrite vstep_length; exact Hg).
-    pose proof (vstep_zmin_ge g a Hg ltac:(lia)) as Hm1.
-    pose proof (vgreedy_zmin_ge l (vstep g a) Hg' Hpos) as Hm2.
-    unfold over in Hno.
-    destruct (step_F2 (P2 T x L) (P2 T x L) g t a (W T x a) Hg Ht) as [HF Hs].
-    + intros l0 wl Hq. exact Hq.
-    + intros wl Hp0. apply P2_step; try lia; assumption.
-    + destruct (IH _ _ Hg' Hl' ltac:(lia) Hn Hmin HF) as (t' & Ht' & Hsum).
-      exists t'. split; [exact Ht'|]. rewrite Hsum, Hs. cbn [map]. change (zsum (?b :: ?r)) with (b + zsum r). lia.
-Qed.
-
-Lemma vgreedy_app l1 l2 g : vgreedy (l1 ++ l2) g = vgreedy l2 (vgreedy l1 g).
-Proof. unfold vgreedy. apply fold_left_app. Qed.
-
-(** a run whose last overfull step puts [a] on a bin of load x: all bins weigh at most 2 h and
-    the open ones at most load + h - x *)
-Lemma over_run T k l1 a l2 : (1 <= k)%nat ->
-  StronglySorted (fun a b : Z => b <= a) (l1 ++ a :: l2) -> Forall (fun v => 0 <= v) (l1 ++ a :: l2) ->
+(** the whole run: l1 without open step, the last overfull step a, lC *)
+Lemma k2_run T k l1 a lC : (1 <= k)%nat ->
+  StronglySorted (fun a b : Z => b <= a) (l1 ++ a :: lC) -> Forall (fun v => 0 <= v) (l1 ++ a :: lC) ->
   let g1 := vgreedy l1 (repeat 0 k) in let x := zmin g1 in
-  let L := zmin (vgreedy (l1 ++ a :: l2) (repeat 0 k)) in
-  over T g1 a -> nover T l2 (vstep g1 a) -> 3 * L < 2 * T ->
-  params T x L /\
-  exists t, Forall2 (P2 T x L) (vgreedy (l1 ++ a :: l2) (repeat 0 k)) t /\
-            zsum t = zsum (map (W T x) (l1 ++ a :: l2)).
+  let fin := vgreedy lC (vstep g1 a) in let L := zmin fin in
+  nstep (opn L) l1 (repeat 0 k) -> over T g1 a -> nstep (over T) lC (vstep g1 a) -> L < T ->
+  par2 T x L /\
+  exists t, Forall2 (P2 T x L) fin t /\ zsum t = zsum (map (W T x) (l1 ++ a :: lC)).
 Proof.
-  intros Hk Hsort Hpos g1 x L Hov Hn HLT.
-  destruct (sorted_desc_app_inv l1 a l2 Hsort) as (Hs1 & Hge1 & Hs2 & Hle2).
-  apply Forall_app in Hpos. destruct Hpos as [Hpos1 Hpos2].
-  pose proof (Forall_inv Hpos2) as Ha0. pose proof (Forall_inv_tail Hpos2) as Hpos2'. cbv beta in Ha0.
+  intros Hk Hsort Hpos g1 x fin L Hn1 Hov HnC HLT.
+  destruct (sorted_desc_app_inv l1 a lC Hsort) as (Hs1 & Hge1 & HsC & HleC).
+  apply Forall_app in Hpos. destruct Hpos as [Hpos1 HposaC].
+  pose proof (Forall_inv HposaC) as Ha0. pose proof (Forall_inv_tail HposaC) as HposC. cbv beta in Ha0.
   assert (Hg1 : (1 <= length g1)%nat) by (unfold g1; rewrite vgreedy_length, repeat_length; exact Hk).
-  assert (Hg2 : (1 <= length (vstep g1 a))%nat) by (rewrite vstep_length; exact Hg1).
-  assert (EL : L = zmin (vgreedy l2 (vstep g1 a))).
-  { unfold L. rewrite vgreedy_app, vgreedy_cons. reflexivity. }
-  pose proof (vstep_zmin_ge g1 a Hg1 Ha0) as Hm1. fold x in Hm1.
-  pose proof (vgreedy_zmin_ge l2 (vstep g1 a) Hg2 Hpos2') as Hm2. rewrite <- EL in Hm2.
-  assert (Hx0 : 0 <= x).
-  { unfold x. pose proof (vgreedy_zmin_ge l1 (repeat 0 k) ltac:(rewrite repeat_length; exact Hk) Hpos1) as H.
-    rewrite zmin_repeat0 in H. exact H. }
-  destruct Hov as [Hax Hov]. fold x in Hax, Hov.
-  assert (Hp : params T x L) by (unfold params; lia).
+  assert (HgC0 : (1 <= length (vstep g1 a))%nat) by (rewrite vstep_length; exact Hg1).
+  pose proof (init_zmin_nonneg k l1 Hk Hpos1) as Hx0. fold g1 in Hx0. fold x in Hx0.
+  pose proof (vstep_zmin_ge g1 a Hg1 Ha0) as Hm3. fold x in Hm3.
+  pose proof (vgreedy_zmin_ge lC (vstep g1 a) HgC0 HposC) as Hm4. fold fin in Hm4. fold L in Hm4.
+  destruct Hov as [Hax Hxa]. fold x in Hax, Hxa.
+  assert (Hp : par2 T x L) by (unfold par2; lia).
   split; [exact Hp|].
-  destruct (phase1_run T x L Hp l1 (repeat 0 k) (repeat 0 k) (zsum l1)) as (t1 & Ht1 & Hsum1).
+  assert (Hall1 : allstep (S1 T L x) l1 (repeat 0 k)).
+  { eapply allstep_impl; [|apply (allstep_intro 0 x (fun c => T - x < c) (opn L)); try assumption].
+    - intros g c (H1 & H2 & H3). unfold S1. tauto.
+    - rewrite repeat_length. exact Hk.
+    - eapply Forall_impl; [|exact Hge1]. intros c Hc. cbv beta in Hc |- *. lia.
+    - fold g1. fold x. lia.
+    - rewrite zmin_repeat0. lia. }
+  destruct (run_inv (P1 T x L) (W T x) (S1 T L x)) with (l := l1) (g := repeat 0 k)
+    (t := repeat 0 k) (y := zsum l1) as (t1 & y1 & Ht1 & Hsum1 & _ & _).
+  - intros y c l wl. apply P1c_weak.
+  - intros g c y wl (H1 & H2 & H3) Hcy Hq. unfold opn in H3. apply (P1c_step T x L y); try assumption; lia.
   - rewrite repeat_length. exact Hk.
   - exact Hs1.
-  - apply Forall_forall. intros b Hb. apply in_le_zsum; assumption.
-  - eapply Forall_impl; [|exact Hge1]. intros b Hb. cbv beta in Hb. lia.
-  - apply Forall2_repeat. unfold P1. unfold params in Hp. lia.
-  - reflexivity.
+  - apply Forall_forall. intros c Hc. apply in_le_zsum; assumption.
+  - exact Hall1.
+  - apply Forall2_repeat. unfold P1. unfold par2 in Hp. lia.
   - fold g1 in Ht1. rewrite zsum_repeat0 in Hsum1.
-    destruct (step_F2 (P2 T x L) (P2 T x L) g1 t1 a (W T x a) Hg1 Ht1) as [HF Hs].
-    + intros l0 wl Hq. exact Hq.
-    + intros wl Hq. fold x. apply P2_step_over; try assumption; lia.
-    + assert (Hl2 : Forall (fun b => 0 <= b <= x) l2).
-      { eapply Forall_impl; [|exact (Forall_and Hpos2' Hle2)]. intros b Hb. cbv beta in Hb. lia. }
-      destruct (phase2_run T x L Hp l2 _ _ Hg2 Hl2 Hm1 Hn ltac:(lia) HF) as (t2 & Ht2 & Hsum2).
-      exists t2. rewrite vgreedy_app, vgreedy_cons. fold g1. split; [exact Ht2|].
-      rewrite Hsum2, Hs, Hsum1, map_app, zsum_app. cbn [map].
-      change (zsum (?b :: ?r)) with (b + zsum r). lia.
+    assert (Ht1' : Forall2 (P2 T x L) g1 t1).
+    { apply (Forall2_impl_l (fun c => x <= c) (P1 T x L y1)); [| |exact Ht1].
+      - intros c d Hc Hq. eapply P1c_P2; eassumption.
+      - apply zmin_le. }
+    destruct (step_F2 (P2 T x L) (P2 T x L) g1 t1 a (W T x a) Hg1 Ht1') as [HF Hs].
+    { intros l0 wl Hq. exact Hq. }
+    { intros wl Hq. fold x. apply P2c_step_over; try assumption; lia. }
+    assert (HallC : allstep (SC T L a) lC (vstep g1 a)).
+    { eapply allstep_impl; [|apply (allstep_intro x L (fun c => 0 <= c <= a) (over T)); try assumption].
+      - intros g c (H1 & H2 & H3). cbv beta in H2. unfold over in H3. unfold SC. lia.
+      - eapply Forall_impl; [|exact (Forall_and HposC HleC)]. intros c Hc. cbv beta in Hc |- *. lia.
+      - fold fin. fold L. lia. }
+    destruct (run_inv (fun _ => P2 T x L) (W T x) (SC T L a)) with (l := lC) (g := vstep g1 a)
+      (t := update (argmin g1) (fun b0 => b0 + W T x a) t1) (y := a) as (t' & y' & Ht' & Hsum & _ & _).
+    + intros y c l wl _ Hq. exact Hq.
+    + intros g c y wl (H1 & H2 & H3) Hcy Hq. apply P2c_step; try assumption; lia.
+    + exact HgC0.
+    + exact HsC.
+    + exact HleC.
+    + exact HallC.
+    + exact HF.
+    + exists t'. fold fin in Ht'. split; [exact Ht'|].
+      rewrite Hsum, Hs, Hsum1, (map_app (W T x) l1), zsum_app. cbn [map].
+      change (zsum (W T x a :: ?r)) with (W T x a + zsum r). lia.
 Qed.
 
-(** ================= D. a run without overfull step ================= *)
+(** ================= F. some pairing before the last overfull step leaves its bin open ================= *)
 
-Definition P0 (T y l wl : Z) : Prop := 0 <= wl /\ wl <= T /\ wl <= l /\ (l = 0 \/ y <= l).
+(** x: load hit by the last overfull step (item a); p: load hit by the last open step before it;
+    u2 = max x (2 p) is twice the parameter u of the staircase *)
+Definition par3 (T L x p a u2 : Z) : Prop :=
+  x <= L /\ 4 * L < 3 * T /\ 0 <= L /\ 0 < p <= x /\ a <= p /\ p + a <= L /\ T < x + a /\
+  x <= u2 /\ 2 * p <= u2 /\ (u2 = x \/ u2 = 2 * p).
 
-Lemma nover_run T : 0 <= T -> forall l g t y, (1 <= length g)%nat ->
-  StronglySorted (fun a b : Z => b <= a) l -> Forall (fun a => 0 <= a <= y) l ->
-  nover T l g -> Forall2 (P0 T y) g t ->
-  exists t', Forall2 (fun l wl => wl <= T /\ wl <= l) (vgreedy l g) t' /\
-             zsum t' = zsum t + zsum (map (cap T) l).
+Lemma par3_facts T L x p a u2 : par3 T L x p a u2 ->
+  2 * T <= 3 * u2 /\ u2 < T /\ 2 * (L - x) <= T - u2 /\ L < 3 * (T - x) /\ L < T.
+Proof. unfold par3. lia. Qed.
+
+(** before the last overfull step every item exceeds T - x > L/3: a bin is empty, closed, holds one
+    item (weight W3 of its load) or two items not above p (weight 4 h, h = T - u2) *)
+Definition Q3 (T L u2 y l wl : Z) : Prop :=
+  0 <= wl <= 6 * (T - u2) /\ (l = 0 \/ y <= l) /\
+  ((l = 0 /\ wl = 0) \/ L < l \/ wl <= W3 T u2 l \/ (2 * y <= l /\ wl <= 4 * (T - u2))).
+
+Lemma Q3_weak T L u2 y c l wl : c <= y -> Q3 T L u2 y l wl -> Q3 T L u2 c l wl.
+Proof. unfold Q3. lia. Qed.
+
+Lemma Q3_step T L x p a u2 y mu c wl : par3 T L x p a u2 ->
+  (mu <= p \/ (c <= p /\ ~ (c <= mu /\ mu + c <= L))) -> 0 <= mu <= x -> T - x < c <= y ->
+  Q3 T L u2 y mu wl -> Q3 T L u2 c (mu + c) (wl + W3 T u2 c).
 Proof.
-  intros HT l. induction l as [|a l IH]; intros g t y Hg Hsort Hy Hn Ht.
-  - exists t. split; [|cbn; lia]. eapply Forall2_impl; [|exact Ht].
-    intros b c Hbc. unfold P0 in Hbc. cbv beta. lia.
-  - apply StronglySorted_inv in Hsort. destruct Hsort as [Hsl Hal].
-    pose proof (Forall_inv Hy) as Hay. pose proof (Forall_inv_tail Hy) as Hyl. cbv beta in Hay.
-    destruct Hn as [Hno Hn]. unfold over in Hno. rewrite vgreedy_cons.
-    assert (Hg' : (1 <= length (vstep g a))%nat) by (rewrite vstep_length; exact Hg).
-    destruct (step_F2 (P0 T y) (P0 T a) g t a (cap T a) Hg Ht) as [HF Hs].
-    + intros l0 wl Hq. unfold P0 in *. lia.
-    + intros wl Hq. unfold P0, cap in *. lia.
-    + assert (Hal' : Forall (fun b => 0 <= b <= a) l).
-      { eapply Forall_impl; [|exact (Forall_and Hyl Hal)]. intros b Hb. cbv beta in Hb. lia. }
-      destruct (IH _ _ a Hg' Hsl Hal' Hn HF) as (t' & Ht' & Hsum).
-      exists t'. split; [exact Ht'|]. rewrite Hsum, Hs. cbn [map].
-      change (zsum (?b :: ?r)) with (b + zsum r). lia.
+  intros Hp Hmode Hmu Hc (H1 & H2 & H3). pose proof (par3_facts _ _ _ _ _ _ Hp) as Hf.
+  unfold par3 in Hp.
+  pose proof (W3_bounds T u2 c ltac:(lia) ltac:(lia) ltac:(lia)) as Hwc.
+  pose proof (W3_bounds T u2 mu ltac:(lia) ltac:(lia) ltac:(lia)) as Hwm.
+  destruct (Z.eq_dec mu 0) as [E0|E0].
+  - subst mu. replace (0 + c) with c by lia. unfold Q3.
+    assert (wl = 0) by lia. subst wl. lia.
+  - unfold Q3. lia.
 Qed.
 
-(** ================= E. 2 * OPTmin <= 3 * LPTmin ================= *)
+(** from the last overfull step on: a bin is closed, or its weight is at most twice its load minus
+    4 delta (it started from one item >= u2), or it weighed at most 4 h at load be >= x and has since
+    received l - be in items, each at least y if any *)
+Definition R3 (T L x u2 y l wl : Z) : Prop :=
+  wl <= 6 * (T - u2) /\
+  (L < l \/ wl <= 2 * l - 2 * (3 * u2 - 2 * T) \/
+   exists be, x <= be <= l /\ wl <= 4 * (T - u2) + 2 * (l - be) /\ (l = be \/ y <= l - be)).
 
-Lemma Forall2_ge_min C s t : Forall (fun a => C <= a) s -> Forall2 (SP C) s t -> Forall (fun b => C <= b) t.
+Lemma R3_weak T L x u2 y c l wl : c <= y -> R3 T L x u2 y l wl -> R3 T L x u2 c l wl.
 Proof.
-  intros Hs H. induction H as [|a b s t Hab Hst IH]; constructor.
-  - pose proof (Forall_inv Hs) as Ha. cbv beta in Ha. unfold SP in Hab. lia.
-  - apply IH. exact (Forall_inv_tail Hs).
+  intros Hc (H1 & [H2|[H2|(be & H2 & H3 & H4)]]); split; try assumption; [left|right;left|right;right]; try assumption.
+  exists be. lia.
 Qed.
 
-Theorem lpt_min_23_values k : (1 <= k)%nat -> forall l s,
+Lemma Q3_R3 T L x p a u2 y y' l wl : par3 T L x p a u2 -> x <= l -> Q3 T L u2 y l wl -> R3 T L x u2 y' l wl.
+Proof.
+  intros Hp Hl (H1 & H2 & H3). pose proof (par3_facts _ _ _ _ _ _ Hp) as Hf. unfold par3 in Hp.
+  pose proof (W3_bounds T u2 l ltac:(lia) ltac:(lia) ltac:(lia)) as Hw.
+  split; [lia|].
+  destruct (Z.le_gt_cases l L) as [HlL|HlL]; [|left; lia].
+  destruct H3 as [H3|[H3|[H3|H3]]]; try lia.
+  - destruct (Z.le_gt_cases u2 l) as [Hu|Hu]; [right; left; lia|].
+    right; right. exists l. lia.
+  - right; right. exists l. lia.
+Qed.
+
+Lemma R3_step T L x p a u2 y mu c wl : par3 T L x p a u2 ->
+  mu <= L -> 0 <= c <= y -> c <= a -> mu + c <= T ->
+  R3 T L x u2 y mu wl -> R3 T L x u2 c (mu + c) (wl + W3 T u2 c).
+Proof.
+  intros Hp Hmu Hc Hca Hle (H1 & H2). pose proof (par3_facts _ _ _ _ _ _ Hp) as Hf. unfold par3 in Hp.
+  pose proof (W3_bounds T u2 c ltac:(lia) ltac:(lia) ltac:(lia)) as Hw.
+  destruct H2 as [H2|[H2|(be & H2 & H3 & H4)]]; [lia| |].
+  - split; [lia|]. right; left. lia.
+  - split; [lia|]. right; right. exists be. lia.
+Qed.
+
+Lemma R3_step_over T L x p a u2 y wl : par3 T L x p a u2 -> 0 <= a ->
+  R3 T L x u2 y x wl -> R3 T L x u2 a (x + a) (wl + W3 T u2 a).
+Proof.
+  intros Hp Ha (H1 & H2). pose proof (par3_facts _ _ _ _ _ _ Hp) as Hf. unfold par3 in Hp.
+  pose proof (W3_bounds T u2 a ltac:(lia) ltac:(lia) ltac:(lia)) as Hw.
+  split; [|left; lia].
+  destruct H2 as [H2|[H2|(be & H2 & H3 & H4)]]; lia.
+Qed.
+
+Lemma R3_final T L x p a u2 y wl : par3 T L x p a u2 -> R3 T L x u2 y L wl -> wl < 6 * (T - u2).
+Proof.
+  intros Hp (H1 & H2). pose proof (par3_facts _ _ _ _ _ _ Hp) as Hf. unfold par3 in Hp.
+  destruct H2 as [H2|[H2|(be & H2 & H3 & H4)]]; lia.
+Qed.
+
+(** side condition before the last overfull step: up to the last open step the smallest load is at
+    most p, after it the items are at most p and no step is open *)
+Definition SAB (T L x p : Z) (g : list Z) (c : Z) : Prop :=
+  0 <= zmin g <= x /\ T - x < c /\ (zmin g <= p \/ (c <= p /\ ~ opn L g c)).
+
+(** phases A and B: from the empty bins to the state before the last overfull step *)
+Lemma k3_phaseAB T L k lA b lB a u2 : (1 <= k)%nat ->
+  StronglySorted (fun a b : Z => b <= a) (lA ++ b :: lB) ->
+  Forall (fun c => a <= c) (lA ++ b :: lB) ->
+  let gA := vgreedy lA (repeat 0 k) in let p := zmin gA in
+  let gB := vgreedy lB (vstep gA b) in let x := zmin gB in
+  par3 T L x p a u2 -> opn L gA b -> nstep (opn L) lB (vstep gA b) ->
+  exists t y, Forall2 (Q3 T L u2 y) gB t /\ zsum t = zsum (map (W3 T u2) (lA ++ b :: lB)).
+Proof.
+  intros Hk Hsort Hge gA p gB x Hp Hopn Hn.
+  pose proof (par3_facts _ _ _ _ _ _ Hp) as Hf. pose proof Hp as Hp'. unfold par3 in Hp'.
+  destruct (sorted_desc_app_inv lA b lB Hsort) as (HsA & HgeA & HsB & HleB).
+  apply Forall_app in Hge. destruct Hge as [HaA HaB].
+  pose proof (Forall_inv HaB) as Hab. pose proof (Forall_inv_tail HaB) as HaB'. cbv beta in Hab.
+  destruct Hopn as [Hbp Hpb]. fold p in Hbp, Hpb.
+  assert (HgA : (1 <= length gA)%nat) by (unfold gA; rewrite vgreedy_length, repeat_length; exact Hk).
+  assert (HgB0 : (1 <= length (vstep gA b))%nat) by (rewrite vstep_length; exact HgA).
+  assert (HposA : Forall (fun c => 0 <= c /\ T - x < c) lA).
+  { eapply Forall_impl; [|exact HgeA]. intros c Hc. cbv beta in Hc. lia. }
+  assert (HposB : Forall (fun c => 0 <= c /\ (T - x < c /\ c <= p)) lB).
+  { eapply Forall_impl; [|exact (Forall_and HaB' HleB)]. intros c Hc. cbv beta in Hc. lia. }
+  assert (HallA : allstep (side 0 p (fun c => T - x < c) RF) lA (repeat 0 k)).
+  { apply allstep_intro; try assumption.
+    - rewrite repeat_length. exact Hk.
+    - apply nstep_RF.
+    - fold gA. fold p. lia.
+    - rewrite zmin_repeat0. lia. }
+  assert (HallB : allstep (side 0 x (fun c => T - x < c /\ c <= p) (opn L)) lB (vstep gA b)).
+  { apply allstep_intro; try assumption.
+    - fold gB. fold x. lia.
+    - pose proof (vstep_zmin_ge gA b HgA ltac:(lia)) as H. fold p in H. lia. }
+  assert (Hall : allstep (SAB T L x p) (lA ++ b :: lB) (repeat 0 k)).
+  { apply allstep_app.
+    - eapply allstep_impl; [|exact HallA]. intros g c (H1 & H2 & H3). unfold SAB. lia.
+    - fold gA. split.
+      + unfold SAB. fold p. lia.
+      + eapply allstep_impl; [|exact HallB]. intros g c (H1 & H2 & H3). unfold SAB. tauto. }
+  assert (Hnn : Forall (fun v => 0 <= v) (lA ++ b :: lB)).
+  { apply Forall_app. split.
+    - eapply Forall_impl; [|exact HposA]. intros c Hc. cbv beta in Hc |- *. lia.
+    - constructor; [lia|]. eapply Forall_impl; [|exact HposB]. intros c Hc. cbv beta in Hc |- *. lia. }
+  destruct (run_inv (Q3 T L u2) (W3 T u2) (SAB T L x p)) with (l := lA ++ b :: lB) (g := repeat 0 k)
+    (t := repeat 0 k) (y := zsum (lA ++ b :: lB)) as (t' & y' & Ht' & Hsum & _ & _).
+  - intros y c l wl. apply Q3_weak.
+  - intros g c y wl (H1 & H2 & H3) Hcy Hq. apply (Q3_step T L x p a u2 y); try assumption; try lia.
+  - rewrite repeat_length. exact Hk.
+  - exact Hsort.
+  - apply Forall_forall. intros c Hc. apply in_le_zsum; assumption.
+  - exact Hall.
+  - apply Forall2_repeat. unfold Q3. lia.
+  - exists t', y'. rewrite vgreedy_app, vgreedy_cons in Ht'. fold gA in Ht'. fold gB in Ht'.
+    split; [exact Ht'|]. rewrite Hsum, zsum_repeat0. lia.
+Qed.
+
+(** the whole run: lA, the last open step b, lB, the last overfull step a, lC *)
+Lemma k3_run T k lA b lB a lC : (1 <= k)%nat ->
+  let l1 := lA ++ b :: lB in
+  StronglySorted (fun a b : Z => b <= a) (l1 ++ a :: lC) -> Forall (fun v => 0 <= v) (l1 ++ a :: lC) ->
+  let gA := vgreedy lA (repeat 0 k) in let p := zmin gA in
+  let gB := vgreedy lB (vstep gA b) in let x := zmin gB in
+  let fin := vgreedy lC (vstep gB a) in let L := zmin fin in
+  let u2 := Z.max x (2 * p) in
+  opn L gA b -> nstep (opn L) lB (vstep gA b) -> over T gB a -> nstep (over T) lC (vstep gB a) ->
+  4 * L < 3 * T ->
+  par3 T L x p a u2 /\
+  exists t y, Forall2 (R3 T L x u2 y) fin t /\ zsum t = zsum (map (W3 T u2) (l1 ++ a :: lC)).
+Proof.
+  intros Hk l1 Hsort Hpos gA p gB x fin L u2 Hopn HnB Hov HnC HLT.
+  destruct (sorted_desc_app_inv l1 a lC Hsort) as (Hs1 & Hge1 & HsC & HleC).
+  apply Forall_app in Hpos. destruct Hpos as [Hpos1 HposaC].
+  pose proof (Forall_inv HposaC) as Ha0. pose proof (Forall_inv_tail HposaC) as HposC. cbv beta in Ha0.
+  assert (HposA : Forall (fun v => 0 <= v) lA) by (apply Forall_app in Hpos1; tauto).
+  assert (HposbB : Forall (fun v => 0 <= v) (b :: lB)) by (apply Forall_app in Hpos1; tauto).
+  pose proof (Forall_inv HposbB) as Hb0. pose proof (Forall_inv_tail HposbB) as HposB. cbv beta in Hb0.
+  assert (HgA : (1 <= length gA)%nat) by (unfold gA; rewrite vgreedy_length, repeat_length; exact Hk).
+  assert (HgB0 : (1 <= length (vstep gA b))%nat) by (rewrite vstep_length; exact HgA).
+  assert (HgB : (1 <= length gB)%nat) by (unfold gB; rewrite vgreedy_length; exact HgB0).
+  assert (HgC0 : (1 <= length (vstep gB a))%nat) by (rewrite vstep_length; exact HgB).
+  pose proof (init_zmin_nonneg k lA Hk HposA) as Hp0. fold gA in Hp0. fold p in Hp0.
+  pose proof (vstep_zmin_ge gA b HgA Hb0) as Hm1. fold p in Hm1.
+  pose proof (vgreedy_zmin_ge lB (vstep gA b) HgB0 HposB) as Hm2. fold gB in Hm2. fold x in Hm2.
+  pose proof (vstep_zmin_ge gB a HgB Ha0) as Hm3. fold x in Hm3.
+  pose proof (vgreedy_zmin_ge lC (vstep gB a) HgC0 HposC) as Hm4. fold fin in Hm4. fold L in Hm4.
+  destruct Hopn as [Hbp Hpb]. fold p in Hbp, Hpb. destruct Hov as [Hax Hxa]. fold x in Hax, Hxa.
+  assert (Hab : a <= b).
+  { apply Forall_app in Hge1. destruct Hge1 as [_ H]. exact (Forall_inv H). }
+  assert (Hp : par3 T L x p a u2) by (unfold par3, u2; lia).
+  split; [exact Hp|].
+  destruct (k3_phaseAB T L k lA b lB a u2 Hk Hs1 Hge1 Hp) as (t1 & y1 & Ht1 & Hsum1).
+  { split; assumption. } { exact HnB. }
+  fold gB in Ht1.
+  assert (Ht1' : Forall2 (R3 T L x u2 a) gB t1).
+  { apply (Forall2_impl_l (fun c => x <= c) (Q3 T L u2 y1)); [| |exact Ht1].
+    - intros c d Hc Hq. eapply Q3_R3; eassumption.
+    - apply zmin_le. }
+  destruct (step_F2 (R3 T L x u2 a) (R3 T L x u2 a) gB t1 a (W3 T u2 a) HgB Ht1') as [HF Hs].
+  { intros l0 wl Hq. exact Hq. }
+  { intros wl Hq. fold x. eapply R3_step_over; eassumption. }
+  assert (HallC : allstep (SC T L a) lC (vstep gB a)).
+  { eapply allstep_impl; [|apply (allstep_intro x L (fun c => 0 <= c <= a) (over T)); try assumption].
+    - intros g c (H1 & H2 & H3). cbv beta in H2. unfold over in H3. unfold SC.
+      lia.
+    - eapply Forall_impl; [|exact (Forall_and HposC HleC)]. intros c Hc. cbv beta in Hc |- *. lia.
+    - fold fin. fold L. lia. }
+  destruct (run_inv (R3 T L x u2) (W3 T u2) (SC T L a)) with (l := lC) (g := vstep gB a)
+    (t := update (argmin gB) (fun b0 => b0 + W3 T u2 a) t1) (y := a) as (t' & y' & Ht' & Hsum & _ & _).
+  - intros y c l wl. apply R3_weak.
+  - intros g c y wl (H1 & H2 & H3) Hcy Hq. apply (R3_step T L x p a u2 y); try assumption; lia.
+  - exact HgC0.
+  - exact HsC.
+  - exact HleC.
+  - exact HallC.
+  - exact HF.
+  - exists t', y'. fold fin in Ht'. split; [exact Ht'|].
+    rewrite Hsum, Hs, Hsum1. unfold l1. rewrite (map_app (W3 T u2) (lA ++ b :: lB)), zsum_app. cbn [map].
+    change (zsum (W3 T u2 a :: ?r)) with (W3 T u2 a + zsum r). lia.
+Qed.
+
+(** ================= G. 3 * OPTmin <= 4 * LPTmin ================= *)
+
+Theorem lpt_min_34_values k : (1 <= k)%nat -> forall l s,
   StronglySorted (fun a b : Z => b <= a) l -> Forall (fun v => 0 <= v) l -> Attainable k l s ->
-  2 * zmin s <= 3 * zmin (vgreedy l (repeat 0 k)).
+  3 * zmin s <= 4 * zmin (vgreedy l (repeat 0 k)).
 Proof.
   intros Hk l s Hsort Hpos Hs.
   set (T := zmin s). set (g := vgreedy l (repeat 0 k)). set (L := zmin g).
-  destruct (Z.le_gt_cases (2 * T) (3 * L)) as [Hle|Hgt]; [exact Hle|exfalso].
+  destruct (Z.le_gt_cases (3 * T) (4 * L)) as [Hle|Hgt]; [exact Hle|exfalso].
   assert (Hg : length g = k) by (unfold g; rewrite vgreedy_length; apply repeat_length).
-  assert (HL0 : 0 <= L).
-  { pose proof (vgreedy_zmin_ge l (repeat 0 k) ltac:(rewrite repeat_length; exact Hk) Hpos) as H.
-    rewrite zmin_repeat0 in H. exact H. }
+  pose proof (init_zmin_nonneg k l Hk Hpos) as HL0. fold g in HL0. fold L in HL0.
   assert (HsT : Forall (fun a => T <= a) s) by apply zmin_le.
   assert (Hi : (argmin g < length g)%nat) by (apply argmin_lt; lia).
   set (K := Z.of_nat k). assert (HK : 1 <= K) by (unfold K; lia).
-  destruct (last_over T l (repeat 0 k)) as [Hn|(l1 & a & l2 & El & Hov & Hn)].
-  - destruct (nover_run T ltac:(lia) l (repeat 0 k) (repeat 0 k) (zsum l)) as (t & Ht & Hsum); auto.
-    + rewrite repeat_length. exact Hk.
-    + apply Forall_forall. intros b Hb. split.
-      * rewrite Forall_forall in Hpos. apply Hpos. exact Hb.
-      * apply in_le_zsum; assumption.
-    + apply Forall2_repeat. unfold P0. lia.
-    + fold g in Ht. rewrite zsum_repeat0 in Hsum.
-      pose proof (Forall2_length_eq _ _ _ Ht) as Hlt.
-      pose proof (Forall2_nth _ 0 0 g t Ht (argmin g) Hi) as Hb. cbv beta in Hb.
-      rewrite argmin_is_zmin in Hb by lia. fold L in Hb.
-      assert (HtT : Forall (fun b => b <= T) t).
-      { apply (Forall2_Forall_r (fun l wl : Z => wl <= T /\ wl <= l) (fun b => b <= T)) with (s := g); [|exact Ht].
-        intros c b Hcb. cbv beta in Hcb. lia. }
-      pose proof (zsum_le_one_plus_rest L T t (argmin g) ltac:(lia) ltac:(lia) HtT) as Hup.
-      rewrite <- Hlt, Hg in Hup. fold K in Hup.
-      destruct (SP_run T k l s ltac:(lia) Hpos Hs) as (t' & Ht' & Hlen' & Hsum').
-      pose proof (zsum_ge_bound _ _ (Forall2_ge_min T s t' HsT Ht')) as Hdown.
-      rewrite Hlen' in Hdown. fold K in Hdown. lia.
-  - subst l. fold g in L.
-    destruct (over_run T k l1 a l2 Hk Hsort Hpos Hov Hn ltac:(fold g; fold L; lia)) as (Hp & t & Ht & Hsum).
-    fold g in Ht. fold L in Ht, Hp. set (x := zmin (vgreedy l1 (repeat 0 k))) in *.
-    unfold params in Hp.
+  destruct (last_step (over T) (over_dec T) l (repeat 0 k)) as [Hn|(l1 & a & lC & El & Hov & HnC)].
+  - (* no overfull step *)
+    destruct (k1_run T k l Hk ltac:(lia) Hsort Hpos Hn) as (t & Ht & Hsum). fold g in Ht.
     pose proof (Forall2_length_eq _ _ _ Ht) as Hlt.
-    pose proof (Forall2_nth _ 0 0 g t Ht (argmin g) Hi) as Hb.
-    rewrite argmin_is_zmin in Hb by lia. fold L in Hb. unfold P2 in Hb.
-    assert (HtD : Forall (fun b => b <= 2 * (T - x)) t).
-    { apply (Forall2_Forall_r (P2 T x L) (fun b => b <= 2 * (T - x))) with (s := g); [|exact Ht].
-      intros c b Hcb. unfold P2 in Hcb. lia. }
-    pose proof (zsum_le_one_plus_rest (L + (T - x) - x) (2 * (T - x)) t (argmin g) ltac:(lia) ltac:(lia) HtD) as Hup.
+    pose proof (Forall2_nth _ 0 0 g t Ht (argmin g) Hi) as Hb. cbv beta in Hb.
+    rewrite argmin_is_zmin in Hb by lia. fold L in Hb.
+    assert (HtT : Forall (fun b => b <= T) t).
+    { apply (Forall2_Forall_r (fun l wl : Z => wl <= T /\ wl <= l) (fun b => b <= T)) with (s := g); [|exact Ht].
+      intros c b Hcb. cbv beta in Hcb. lia. }
+    pose proof (zsum_le_one_plus_rest L T t (argmin g) ltac:(lia) ltac:(lia) HtT) as Hup.
     rewrite <- Hlt, Hg in Hup. fold K in Hup.
-    pose proof (VP_total T x k _ s ltac:(lia) ltac:(lia) Hpos Hs HsT) as Hdown. fold K in Hdown.
-    rewrite Hsum in Hup. lia.
+    destruct (SP_run T k l s ltac:(lia) Hpos Hs) as (t' & Ht' & Hlen' & Hsum').
+    pose proof (zsum_ge_bound _ _ (Forall2_ge_min T s t' HsT Ht')) as Hdown.
+    rewrite Hlen' in Hdown. fold K in Hdown. lia.
+  - subst l.
+    assert (EL : L = zmin (vgreedy lC (vstep (vgreedy l1 (repeat 0 k)) a))).
+    { unfold L, g. rewrite vgreedy_app, vgreedy_cons. reflexivity. }
+    assert (Eg : g = vgreedy lC (vstep (vgreedy l1 (repeat 0 k)) a)).
+    { unfold g. rewrite vgreedy_app, vgreedy_cons. reflexivity. }
+    destruct (last_step (opn L) (opn_dec L) l1 (repeat 0 k)) as [Hn1|(lA & b & lB & El1 & Hopn & HnB)].
+    + (* every pairing before the last overfull step closes its bin *)
+      rewrite EL in Hn1.
+      destruct (k2_run T k l1 a lC Hk Hsort Hpos Hn1 Hov HnC ltac:(rewrite <- EL; lia)) as (Hp & t & Ht & Hsum).
+      rewrite <- EL in Hp, Ht. rewrite <- Eg in Ht.
+      set (x := zmin (vgreedy l1 (repeat 0 k))) in *. unfold par2 in Hp.
+      pose proof (Forall2_length_eq _ _ _ Ht) as Hlt.
+      pose proof (Forall2_nth _ 0 0 g t Ht (argmin g) Hi) as Hb.
+      rewrite argmin_is_zmin in Hb by lia. fold L in Hb. unfold P2 in Hb.
+      assert (HtD : Forall (fun b => b <= 2 * (T - x)) t).
+      { apply (Forall2_Forall_r (P2 T x L) (fun b => b <= 2 * (T - x))) with (s := g); [|exact Ht].
+        intros c d Hcd. unfold P2 in Hcd. lia. }
+      pose proof (zsum_le_one_plus_rest (L + (T - x) - x) (2 * (T - x)) t (argmin g) ltac:(lia) ltac:(lia) HtD) as Hup.
+      rewrite <- Hlt, Hg in Hup. fold K in Hup.
+      pose proof (VP_total T x k _ s ltac:(lia) ltac:(lia) Hpos Hs HsT) as Hdown. fold K in Hdown.
+      rewrite Hsum in Hup. lia.
+    + (* some pairing before it leaves its bin open *)
+      subst l1.
+      assert (EAB : vgreedy (lA ++ b :: lB) (repeat 0 k) = vgreedy lB (vstep (vgreedy lA (repeat 0 k)) b))
+        by (rewrite vgreedy_app, vgreedy_cons; reflexivity).
+      rewrite EAB in EL, Eg, HnC, Hov. rewrite EL in Hopn, HnB.
+      destruct (k3_run T k lA b lB a lC Hk Hsort Hpos Hopn HnB Hov HnC ltac:(rewrite <- EL; lia)) as (Hp & t & y & Ht & Hsum).
+      rewrite <- EL in Hp, Ht. rewrite <- Eg in Ht.
+      set (x := zmin (vgreedy lB (vstep (vgreedy lA (repeat 0 k)) b))) in *.
+      set (p := zmin (vgreedy lA (repeat 0 k))) in *.
+      set (u2 := Z.max x (2 * p)) in *.
+      pose proof (par3_facts _ _ _ _ _ _ Hp) as Hf.
+      pose proof (Forall2_length_eq _ _ _ Ht) as Hlt.
+      pose proof (Forall2_nth _ 0 0 g t Ht (argmin g) Hi) as Hb.
+      rewrite argmin_is_zmin in Hb by lia. fold L in Hb.
+      pose proof (R3_final _ _ _ _ _ _ _ _ Hp Hb) as Hb'.
+      assert (HtD : Forall (fun b => b <= 6 * (T - u2)) t).
+      { apply (Forall2_Forall_r (R3 T L x u2 y) (fun b => b <= 6 * (T - u2))) with (s := g); [|exact Ht].
+        intros c d Hcd. unfold R3 in Hcd. lia. }
+      pose proof (zsum_le_one_plus_rest (6 * (T - u2) - 1) (6 * (T - u2)) t (argmin g) ltac:(lia) ltac:(lia) HtD) as Hup.
+      rewrite <- Hlt, Hg in Hup. fold K in Hup.
+      pose proof (VP3_total T u2 k _ s ltac:(lia) ltac:(lia) Hpos Hs HsT) as Hdown. fold K in Hdown.
+      rewrite Hsum in Hup. lia.
 Qed.
 
-Section MinTwoThirds.
+(** the weaker constant 2/3 *)
+Corollary lpt_min_23_values k : (1 <= k)%nat -> forall l s,
+  StronglySorted (fun a b : Z => b <= a) l -> Forall (fun v => 0 <= v) l -> Attainable k l s ->
+  2 * zmin s <= 3 * zmin (vgreedy l (repeat 0 k)).
+Proof.
+  intros Hk l s Hsort Hpos Hs. pose proof (lpt_min_34_values k Hk l s Hsort Hpos Hs) as H.
+  pose proof (init_zmin_nonneg k l Hk Hpos) as H0. lia.
+Qed.
+
+(** ================= H. item level ================= *)
+
+Section MinThreeQuarters.
   Context {A : Type} (valueof : A -> Z) (keep : bool).
 
-  Theorem lpt_min_23_attainable k items s : (1 <= k)%nat ->
+  (** greedy against any way of distributing the values over k bins *)
+  Theorem lpt_min_34_attainable k items s : (1 <= k)%nat ->
     Forall (fun x => 0 <= valueof x) items -> Attainable k (map valueof items) s ->
-    2 * zmin s <= 3 * zmin (sums (greedy valueof keep k items)).
+    3 * zmin s <= 4 * zmin (sums (greedy valueof keep k items)).
   Proof.
     intros Hk Hpos Hs. rewrite greedy_sums_vgreedy.
-    apply lpt_min_23_values; [exact Hk|apply sorted_values_sorted|apply sorted_values_nonneg; exact Hpos|].
+    apply lpt_min_34_values; [exact Hk|apply sorted_values_sorted|apply sorted_values_nonneg; exact Hpos|].
     apply (Attainable_perm_local k (map valueof items)); [|exact Hs].
     symmetry. apply sorted_values_perm.
   Qed.
 
-  (** LPTmin >= 2/3 * OPTmin for every number of bins *)
-  Theorem lpt_min_ratio_23 k items v : (1 <= k)%nat ->
+  (** Deuermeyer, Friesen, Langston 1982: LPTmin >= 3/4 * OPTmin for every number of bins *)
+  Theorem lpt_min_ratio_34 k items v : (1 <= k)%nat ->
+    Forall (fun x => 0 <= valueof x) items -> Opt MaxSmallest k (map valueof items) v ->
+    3 * (- v) <= 4 * zmin (sums (greedy valueof keep k items)).
+  Proof.
+    intros Hk Hpos [(s & Hs & Ev) _]. rewrite value_MaxSmallest in Ev. subst v.
+    rewrite Z.opp_involutive. apply lpt_min_34_attainable; auto.
+  Qed.
+
+  Corollary lpt_min_ratio_23 k items v : (1 <= k)%nat ->
     Forall (fun x => 0 <= valueof x) items -> Opt MaxSmallest k (map valueof items) v ->
     2 * (- v) <= 3 * zmin (sums (greedy valueof keep k items)).
   Proof.
-    intros Hk Hpos [(s & Hs & Ev) _]. rewrite value_MaxSmallest in Ev. subst v.
-    rewrite Z.opp_involutive. apply lpt_min_23_attainable; auto.
+    intros Hk Hpos Hopt. pose proof (lpt_min_ratio_34 k items v Hk Hpos Hopt) as H.
+    pose proof (init_zmin_nonneg k (sorted_values valueof items) Hk (sorted_values_nonneg valueof items Hpos)) as H0.
+    rewrite <- (greedy_sums_vgreedy valueof keep) in H0. lia.
   Qed.
-End MinTwoThirds.
+End MinThreeQuarters.
 
-(** ================= F. the classical statements, and what is open ================= *)
-
-(** Deuermeyer, Friesen, Langston 1982: LPTmin >= 3/4 * OPTmin *)
-Definition lpt_min_ratio_34 : Prop :=
-  forall (A : Type) (valueof : A -> Z) (keep : bool) (k : nat) (items : list A) (v : Z),
-    (1 <= k)%nat -> Forall (fun x => 0 <= valueof x) items ->
-    Opt MaxSmallest k (map valueof items) v ->
-    3 * (- v) <= 4 * zmin (sums (greedy valueof keep k items)).
-
-Lemma greedy_min_nonneg {A} (valueof : A -> Z) keep k items : (1 <= k)%nat ->
-  Forall (fun x => 0 <= valueof x) items -> 0 <= zmin (sums (greedy valueof keep k items)).
-Proof.
-  intros Hk Hpos. rewrite greedy_sums_vgreedy.
-  pose proof (vgreedy_zmin_ge (sorted_values valueof items) (repeat 0 k)
-                ltac:(rewrite repeat_length; exact Hk) (sorted_values_nonneg valueof items Hpos)) as H.
-  rewrite zmin_repeat0 in H. exact H.
-Qed.
-
-(** the exact bound of Csirik, Kellerer, Woeginger implies the 3/4 bound *)
-Theorem lpt_min_ratio_implies_34 : lpt_min_ratio_statement -> lpt_min_ratio_34.
-Proof.
-  intros H A valueof keep k items v Hk Hpos Hopt.
-  specialize (H A valueof keep k items v Hk Hpos Hopt).
-  pose proof (greedy_min_nonneg valueof keep k items Hk Hpos) as HL.
-  set (L := zmin (sums (greedy valueof keep k items))) in *. set (K := Z.of_nat k) in *.
-  assert (HK : 1 <= K) by (unfold K; lia). nia.
-Qed.
+(* OPEN: the exact constant of Csirik, Kellerer, Woeginger 1992, [lpt_min_ratio_statement] of
+   Proofs/LPTMinProofs.v:  (3k-1) * OPTmin <= (4k-2) * LPTmin.  It is proved there for k <= 2 and checked
+   on small instances for k = 3, 4; for k -> infinity it tends to the bound 3/4 proved here.
+   The argument above loses the difference because it only uses that the smallest bin of greedy weighs
+   strictly less than the common bound of the other bins; the exact constant needs the amount by
+   which it is lighter, traded against an excess of the other k - 1 bins. *)
 
 (* ==== FOOTER ==== *)
-Print Assumptions lpt_min_23_values.
+Print Assumptions lpt_min_34_values.
+Print Assumptions lpt_min_ratio_34.
 Print Assumptions lpt_min_ratio_23.
-Print Assumptions lpt_min_ratio_implies_34.
